@@ -36,7 +36,7 @@ class Spec(CheckSpec):
         mons = ["c18"]
         for i in range(n):
             seed = base_seed * 1000003 + 180000000 + i
-            prof = {"tight_links": 0.7, "push": 0.1, "n_green": (1, 3), "n_red": (1, 2), "avoid": ["listen_on_ports"], "obs": i % 3 == 0}
+            prof = {"tight_links": 0.7, "push": 0.1, "n_green": (1, 3), "n_red": (1, 2), "obs": i % 3 == 0}
             if i % 4 == 3:
                 prof["topologies"] = ["wireless"]  # wireless channel clause: two wireless routers, channel capacity of a few frames
             yield {"seed": seed, "profile": prof, "n_ops": 40, "monitors": mons, "op_mix": {"step": 0.85, "reset": 0.03, "fault": 0.12}}
